@@ -40,7 +40,7 @@ pub fn gen_case(prop: &str, rng: &mut Rng) -> Case {
     };
     // one run in 24 is outsized: long, with many handles and subscribers alive at once (anything that
     // only breaks beyond a small bound: a waker list that outgrows an inline capacity, counters, ...)
-    let outsized = rng.chance(1, 24);
+    let outsized = rng.chance(1, 24) && !cfg!(miri);
     let n_steps = if outsized {
         60 + rng.below(100)
     } else {
